@@ -68,6 +68,6 @@ def mutators(ctx, fx, files, rule):
             m = re.match(r'^(push|pop)', last)
             if m and fx.cg[fid]['vis'] == 'pub' and not fx.cg[fid]['unsafe']:
                 ctx.analysed_fns.add(fid)
-                n += refusal.state_refusal(ctx, Fn(fx.raw(fid)), rule, m.group(1))
+                n += refusal.state_refusal(ctx, Fn(fx.raw(fid)), rule, m.group(1), fx=fx)
     ctx.instance(rule + ".effects", n)
     return n
